@@ -37,6 +37,7 @@ Definition sop_of (o : op) : sop :=
   | OErasePos pos => SErasePos pos
   | OFreeErase value => SFreeErase value
   | OFreeEraseIf k => SFreeEraseIf (pred_of k)
+  | OAppendRangeIn src => SAppendRange src
   end.
 
 (* the arguments exist: a basic_inplace_string argument of the same type holds at most Capacity characters;
